@@ -311,7 +311,7 @@ def literal_context(text, pos):
     """which clause a literal at `pos` is the argument of, for the clauses whose arguments the parser discards by
     design (p_ComplianceGroup keeps the group name only); '' for every other place"""
     import re
-    if re.search(r'\bGROUP\s+[A-Za-z][\w-]*\s+DESCRIPTION\s+$', text[:pos]):
+    if re.search(r'\bGROUP\s+[A-Za-z0-9][\w-]*\s+DESCRIPTION\s+$', text[:pos]):
         return ':compliance-group-description'
     return ''
 
